@@ -1,6 +1,6 @@
 (* ExtractC11.v — extraction of the C11 model: the analysis (Analyze.v) and the engine it is
    proved sound for (Engine.eval).  ExtrOcamlBasic only; numbers stay positive/N/Z/nat inductives. *)
-From PegtlV Require Import Base Decode Grammar Engine Analyze.
+From PegtlV Require Import Base Decode Grammar Engine Analyze AnalyzeSound.
 From Coq Require Import Extraction ExtrOcamlBasic.
 Extraction Language OCaml.
-Extraction "c11_model.ml" problems analyze_root aentry roots eval N.add N.mul.
+Extraction "c11_model.ml" problems analyze_root aentry roots table_shape_ok eval N.add N.mul.
